@@ -92,3 +92,9 @@ Definition gcopy_lim (dst : bytes) (off lim : Z) (src : bytes) : res bytes :=
 (* copy(dst, src) on lists: the first min(len dst, len src) elements *)
 Definition gcopyl {A} (dst src : list A) : list A :=
   firstn (length dst) src ++ skipn (length src) dst.
+(* map[K]V of integers as an association list; a missing key reads as the zero value *)
+Fixpoint gmapget (m : list (Z * Z)) (k : Z) : Z :=
+  match m with
+  | [] => 0
+  | (k', v) :: r => if k' =? k then v else gmapget r k
+  end.
